@@ -75,6 +75,34 @@ def CW.run (A : Aead) : CW → List Bytes → List WOp
 def cryptoWriterOps (A : Aead) (n0 : NonceSeq) (writes : List Bytes) : List WOp :=
   .w (leBytes 8 n0.d1) :: .w (leBytes 4 n0.d2) :: CW.run A { buf := [], nonce := n0 } writes
 
+/-- a program driving a `CryptoWriter` the way user code does: writes and explicit flushes; the final flush
+    (`flush_final`, or the one in `Drop`) is implicit at the end -/
+inductive CWOp where
+  | write (b : Bytes)
+  | flush
+
+def CW.runProg (A : Aead) : CW → List CWOp → List WOp
+  | s, [] => (s.flush A).2
+  | s, .write b :: ops => let (s', o) := s.write A b; o ++ CW.runProg A s' ops
+  | s, .flush :: ops => let (s', o) := s.flush A; o ++ CW.runProg A s' ops
+
+def cryptoWriterProgOps (A : Aead) (n0 : NonceSeq) (prog : List CWOp) : List WOp :=
+  .w (leBytes 8 n0.d1) :: .w (leBytes 4 n0.d2) :: CW.runProg A { buf := [], nonce := n0 } prog
+
+/-- the plaintext chunks such a program seals, in order -/
+def CW.chunksProg : Bytes → List CWOp → List Bytes
+  | buf, [] => chunksOf (buf.length + 1) buf
+  | buf, .write b :: ops =>
+    if (buf ++ b).length > cryptoBuf then chunksOf ((buf ++ b).length + 1) (buf ++ b) ++ CW.chunksProg [] ops
+    else CW.chunksProg (buf ++ b) ops
+  | buf, .flush :: ops => chunksOf (buf.length + 1) buf ++ CW.chunksProg [] ops
+
+/-- everything the program wrote -/
+def CW.written : List CWOp → Bytes
+  | [] => []
+  | .write b :: ops => b ++ CW.written ops
+  | .flush :: ops => CW.written ops
+
 /-- the frames, as bytes, for given chunks -/
 def framesBytes (A : Aead) : NonceSeq → List Bytes → Bytes
   | _, [] => []
